@@ -49,6 +49,15 @@ func groupOf(id string) string {
 
 func funcKindOf(o *Obligation) string { return o.Func + "#" + o.Kind }
 
+// outDir is where evidence and replay files go: /verif, or a scratch directory when a seeded change is checked in a
+// scratch worktree (GOVC_OUT), so that such a run never rewrites the evidence of the unchanged tree.
+func outDir() string {
+	if d := os.Getenv("GOVC_OUT"); d != "" {
+		return d
+	}
+	return verifDir
+}
+
 func lockPath() string { return filepath.Join(verifDir, "contracts", "LOCK.json") }
 
 func loadLock() *LockFile {
@@ -108,6 +117,7 @@ type propScope struct {
 	fn       *ssa.Function
 	allSafe  bool // every SAFE obligation counts (sweep)
 	contract bool // contract clauses tagged with the property count
+	dep      bool // a function of the property calls it and assumes its postconditions: all its clauses count
 }
 
 func (w *World) scopeOf(prop string) []*propScope {
@@ -151,6 +161,58 @@ func (w *World) scopeOf(prop string) []*propScope {
 			}
 		}
 	}
+	// Modular verification: at a call the callee's postconditions are assumed. Whatever a function of the property
+	// assumes that way has to be discharged under the same property, or the property would rest on a clause that only
+	// some other check looks at. So the scope is closed under "calls a function that has postconditions" (closures of
+	// a function are part of it: they are inlined where they are called).
+	{
+		var work []*ssa.Function
+		for f := range m {
+			work = append(work, f)
+		}
+		seen := map[*ssa.Function]bool{}
+		var visit func(f *ssa.Function)
+		visit = func(f *ssa.Function) {
+			if seen[f] {
+				return
+			}
+			seen[f] = true
+			for _, b := range f.Blocks {
+				for _, ins := range b.Instrs {
+					if mc, ok := ins.(*ssa.MakeClosure); ok {
+						if cf, ok := mc.Fn.(*ssa.Function); ok {
+							visit(cf)
+						}
+					}
+					ci, ok := ins.(ssa.CallInstruction)
+					if !ok {
+						continue
+					}
+					cal := ci.Common().StaticCallee()
+					if cal == nil {
+						continue
+					}
+					c := w.Contracts.ByFunc[cal]
+					if c == nil || c.Trusted || len(cal.Blocks) == 0 || len(c.Ensures) == 0 || !w.InModule(cal) {
+						continue
+					}
+					if strings.HasSuffix(w.FileOfFunc(cal), "_test.go") {
+						continue
+					}
+					sc := get(cal)
+					if !sc.dep {
+						sc.dep = true
+						work = append(work, cal)
+					}
+				}
+			}
+		}
+		for len(work) > 0 {
+			f := work[len(work)-1]
+			work = work[:len(work)-1]
+			visit(f)
+		}
+	}
 	var out []*propScope
 	for _, s := range m {
 		if strings.HasSuffix(w.FileOfFunc(s.fn), "_test.go") {
@@ -187,6 +249,47 @@ func (w *World) structObligations(prop string) []*Obligation {
 		o := &Obligation{ID: fmt.Sprintf("STRUCT#%s:%s#0", sf.Kind, sf.Spec), Kind: "STRUCT", Func: "declarations", Text: sf.Spec, Solver: "go/types", Status: "unknown", presolved: true}
 		if sf.Kind == "map-order" {
 			out = append(out, w.mapOrderObligations(sf.Spec)...)
+			continue
+		}
+		if sf.Kind == "json-numbers" {
+			o.ID = fmt.Sprintf("STRUCT#json-numbers:no number of package %s is marshalled with omitempty#0", sf.Spec)
+			o.Text = "json-numbers " + sf.Spec
+			o.Status = "unsat"
+			var bad []string
+			for path, p := range w.PkgByID {
+				if shortPkg(path) != sf.Spec || !strings.HasPrefix(path, modulePath) || p.TypesInfo == nil {
+					continue
+				}
+				for id, obj := range p.TypesInfo.Defs {
+					tn, ok := obj.(*types.TypeName)
+					if !ok || tn.IsAlias() {
+						continue
+					}
+					if strings.HasSuffix(w.Fset.Position(id.Pos()).Filename, "_test.go") {
+						continue
+					}
+					st, ok := under(tn.Type()).(*types.Struct)
+					if !ok {
+						continue
+					}
+					for i := 0; i < st.NumFields(); i++ {
+						tag := reflect.StructTag(st.Tag(i)).Get("json")
+						parts := strings.Split(tag, ",")
+						if len(parts) < 2 || !contains(parts[1:], "omitempty") {
+							continue
+						}
+						if b, ok := under(st.Field(i).Type()).(*types.Basic); ok && b.Info()&types.IsNumeric != 0 {
+							bad = append(bad, fmt.Sprintf("%s.%s (%s) at %s", tn.Name(), st.Field(i).Name(), st.Field(i).Type(), w.Fset.Position(st.Field(i).Pos())))
+						}
+					}
+				}
+			}
+			if len(bad) > 0 {
+				sort.Strings(bad)
+				o.Status = "sat"
+				o.Model = "a zero value is written like an absent one: " + strings.Join(bad, "; ")
+			}
+			out = append(out, o)
 			continue
 		}
 		if sf.Kind == "pass-order" {
@@ -242,7 +345,7 @@ func (w *World) buildProperty(prop string) *buildResult {
 		br.nFuncs++
 		br.funcs = append(br.funcs, FuncKey(sc.fn))
 		for _, u := range v.unboundClauses {
-			br.unboundClauses = append(br.unboundClauses, FuncKey(sc.fn)+"#"+u)
+			br.unboundClauses = append(br.unboundClauses, v.idKey()+"#"+u)
 		}
 		for n := range v.notes {
 			br.notes[n] = true
@@ -253,6 +356,10 @@ func (w *World) buildProperty(prop string) *buildResult {
 				if sc.allSafe {
 					br.obls = append(br.obls, o)
 				}
+				continue
+			}
+			if sc.dep {
+				br.obls = append(br.obls, o)
 				continue
 			}
 			// contract obligation: clause-level tags override function-level tags
@@ -601,8 +708,8 @@ func cmdCheck(args []string) int {
 	var samples []any
 	var undecidedNew []string
 	var knownPrinted []string
-	os.RemoveAll(filepath.Join(verifDir, "replays", *prop))
-	os.MkdirAll(filepath.Join(verifDir, "replays", *prop), 0o755)
+	os.RemoveAll(filepath.Join(outDir(), "replays", *prop))
+	os.MkdirAll(filepath.Join(outDir(), "replays", *prop), 0o755)
 	report := func(o *Obligation, why string) {
 		for _, f := range findings {
 			if f.Kind == "finding" && f.Property == *prop && groupOf(f.Obligation) == groupOf(o.ID) {
@@ -613,7 +720,7 @@ func cmdCheck(args []string) int {
 			}
 		}
 		violations++
-		rp := filepath.Join(verifDir, "replays", *prop, fmt.Sprintf("v%03d.json", violations))
+		rp := filepath.Join(outDir(), "replays", *prop, fmt.Sprintf("v%03d.json", violations))
 		rr := tryReplay(w, o)
 		rec := map[string]any{"property": *prop, "obligation": o.ID, "kind": o.Kind, "position": o.Pos, "why": why,
 			"solver_status": o.Status, "solver": o.Solver, "solver_output": truncate(o.Model, 6000), "replay": rr}
@@ -723,8 +830,69 @@ func cmdCheck(args []string) int {
 		undecidedNew = append(undecidedNew, o.ID+" ["+o.Status+"]")
 		fmt.Printf("UNDECIDED property=%s obligation=%q status=%s\n", *prop, o.ID, o.Status)
 	}
+	// A contract bound to "the closure of P that prints literal L" whose clauses were proved at lock time: when P still
+	// exists and no closure of it prints L any more, the emitted statement the clauses pin down is gone or respelled.
+	// Without a semantics of the target language that cannot be waved through (DESIGN 2, emission events).
+	{
+		reported := map[string]bool{}
+		var rest []string
+		for _, id := range missing {
+			k := strings.Index(id, "@emits:")
+			h := strings.Index(id, "#")
+			if k > 0 && h > k {
+				parent, key := id[:k], id[:h]
+				kind := id[h+1:]
+				if c := strings.Index(kind, ":"); c > 0 {
+					kind = kind[:c]
+				}
+				e := locked[id]
+				if w.Funcs[parent] != nil && w.Contracts.ByKey[key] != nil && w.Contracts.ByKey[key].Fn == nil && e != nil && e.Discharged > 0 && (kind == "POST" || kind == "ITER" || kind == "INV-pres" || kind == "INV-init") {
+					if !reported[key] {
+						reported[key] = true
+						o := &Obligation{ID: id + "#0", Kind: kind, Func: parent, Status: "vanished", Solver: "go/ssa",
+							Model: "no closure of " + parent + " prints the format literal the contract " + key + " is bound to"}
+						report(o, "the emitted statement a proved contract is bound to is no longer printed")
+					}
+					continue
+				}
+			}
+			rest = append(rest, id)
+		}
+		missing = rest
+	}
 	for _, id := range missing {
 		fmt.Printf("MISSING property=%s obligation-group=%q (function or expression no longer present; not a violation by itself)\n", *prop, id)
+	}
+	// A clause that was proved at lock time and now cannot be evaluated although every name in it still exists: what it
+	// talks about changed its type or shape (a map keyed by something else, a field that is no longer a pointer). That
+	// is a change of the thing the clause pins down, not a rename; it is reported. (A name that vanished is not: a
+	// plain rename of a local would otherwise raise an alarm on correct code.)
+	{
+		var rest []string
+		for _, u := range br.unboundClauses {
+			h := strings.Index(u, "#")
+			c := strings.Index(u, ": spec:")
+			hit := ""
+			if h > 0 && c > h && !strings.Contains(u[c:], "unknown identifier") {
+				fk, name := u[:h], u[h+1:c]
+				for g, e := range locked {
+					if e.Discharged > 0 && strings.HasPrefix(g, fk+"#") && strings.HasSuffix(g, ":"+name) && (strings.HasPrefix(g[len(fk)+1:], "POST:") || strings.HasPrefix(g[len(fk)+1:], "ITER:")) {
+						hit = g
+					}
+				}
+			}
+			if hit != "" {
+				kind := "POST"
+				if strings.Contains(hit, "#ITER:") {
+					kind = "ITER"
+				}
+				o := &Obligation{ID: hit + "#0", Kind: kind, Func: u[:h], Status: "ill-typed", Solver: "go/types", Model: u[c+2:]}
+				report(o, "a proved clause no longer fits the code it is about: "+u[c+2:])
+				continue
+			}
+			rest = append(rest, u)
+		}
+		br.unboundClauses = rest
 	}
 	for _, u := range br.unboundClauses {
 		fmt.Printf("UNBOUND-CLAUSE %s (the clause names something the function no longer has; no obligation is generated for it, the other clauses of the function are checked)\n", u)
@@ -771,8 +939,8 @@ func cmdCheck(args []string) int {
 	ev := &Evidence{PropertyID: *prop, Tier: *tier, Seed: seed, Level: "proof", Coverage: cov, Assumptions: assumptions,
 		WallS: time.Since(t0).Seconds(), Violations: violations}
 	b, _ := json.MarshalIndent(ev, "", " ")
-	os.MkdirAll(filepath.Join(verifDir, "evidence"), 0o755)
-	os.WriteFile(filepath.Join(verifDir, "evidence", *prop+".json"), b, 0o644)
+	os.MkdirAll(filepath.Join(outDir(), "evidence"), 0o755)
+	os.WriteFile(filepath.Join(outDir(), "evidence", *prop+".json"), b, 0o644)
 	fmt.Printf("govc: %s %s: %d/%d locked obligations discharged, %d baseline-undecided (not claimed), %d new, %d functions, %.1fs\n",
 		*prop, *tier, nDischarged, nLocked, baselineUndecided, len(newObls), br.nFuncs, time.Since(t0).Seconds())
 	if violations > 0 {
@@ -799,8 +967,8 @@ func writeEvidence(prop, tier string, seed int, cov map[string]any, d time.Durat
 	}
 	ev := &Evidence{PropertyID: prop, Tier: tier, Seed: seed, Level: "proof", Coverage: cov, WallS: d.Seconds(), Violations: viol}
 	b, _ := json.MarshalIndent(ev, "", " ")
-	os.MkdirAll(filepath.Join(verifDir, "evidence"), 0o755)
-	os.WriteFile(filepath.Join(verifDir, "evidence", prop+".json"), b, 0o644)
+	os.MkdirAll(filepath.Join(outDir(), "evidence"), 0o755)
+	os.WriteFile(filepath.Join(outDir(), "evidence", prop+".json"), b, 0o644)
 }
 
 func head(xs []string, n int) []string {
